@@ -56,6 +56,8 @@ pub fn kind_docs() -> Vec<Value> {
         json!({"o♭":{"_id":"!x","v":1}}),                           // 10 '!' id in flattened non-array field
         json!({"l♭":[[x()],[y()]]}),                                // 11 nested plain arrays inside a flattened array
         json!({"l♭":["s", 1, null, true, x(), "!e", 2.5]}),         // 12 scalars directly inside a flattened array
+        json!({"g♭":[["a","!b"],["^c"],[1,"d",null,["e"]]]}),       // 13 arrays of arrays of strings in a flattened field
+        json!({"r♭":[[{"_id":"x","t♭":["p","q"],"n":1}],[2]]}),     // 14 object with its own flattened field inside an inner array
     ]
 }
 
@@ -311,6 +313,43 @@ pub fn tie_scenario(name: &str, depth: usize, extra: &[Op]) -> Scenario {
     }
 }
 
+/// Replica 0 removed the flattened array from the document (its descriptor object is deleted), replica 1
+/// edited the array once or twice meanwhile (so the deletion is the losing or a tying leaf), then received
+/// replica 0's block: the descriptor is in conflict between a live leaf and a deletion leaf.
+pub fn array_deleted_scenario(name: &str, edits: usize, depth: usize, extra: &[Op]) -> Scenario {
+    let docs = vec![
+        json!({"l♭":[x(), y()]}),
+        json!({"s":"a"}),
+        json!({"l♭":[x(), y(), z()]}),
+        json!({"l♭":[z(), x(), y()]}),
+        json!({"l♭":[y(), z()]}),
+        json!({"l♭":[x(), y()], "s":"b"}),
+    ];
+    let mut prologue = vec![Op::Upd(0, 0), Op::Commit(0, 0), Op::Sync(1, 0), Op::Upd(0, 1), Op::Commit(0, 0), Op::Upd(1, 2), Op::Commit(1, 0)];
+    if edits > 1 {
+        prologue.extend_from_slice(&[Op::Upd(1, 3), Op::Commit(1, 0)]);
+    }
+    prologue.push(Op::Sync(1, 0));
+    let mut alphabet = vec![Op::Commit(1, 0), Op::Sync(0, 1), Op::Upd(1, 4), Op::Upd(0, 5), Op::Commit(0, 0), Op::Reopen(1), Op::Unstage(1)];
+    for j in 0..2 {
+        for k in 0..2 {
+            alphabet.push(Op::Resolve(1, j, k));
+        }
+    }
+    alphabet.extend_from_slice(extra);
+    Scenario {
+        name: name.to_string(),
+        nrep: 2,
+        menu: menu(docs),
+        prologue,
+        alphabet,
+        key_opts: KeyOpts::default(),
+        max_depth: depth,
+        track: false,
+        order: None,
+    }
+}
+
 /// Three replicas: replicas 0 and 1 committed concurrently, replica 1 merged and committed a block with
 /// two parents; replica 2 still holds only the shared first commit.
 pub fn trio_merge_scenario(name: &str, depth: usize, extra: &[Op]) -> Scenario {
@@ -519,6 +558,8 @@ pub fn cross_scenarios(thorough: bool) -> Vec<Scenario> {
         mutual_move_scenario("x-pair-mutual-move", depth, &[]),
         travel_reuse_scenario("x-pair-travel-reuse", depth, &[]),
         relay_scenario("x-trio-relay", depth, &[]),
+        array_deleted_scenario("x-pair-array-deleted-vs-edited-once", 1, depth, &[]),
+        array_deleted_scenario("x-pair-array-deleted-vs-edited-twice", 2, depth, &[]),
     ];
     base.into_iter()
         .map(|mut sc| {
